@@ -212,6 +212,27 @@ async fn run_case(ops: &[String]) -> Result<CaseOut, String> {
                     Err(e) => err_kind(&e),
                 }
             }
+            ["crash", n, "gc"] => {
+                // the collector itself dies: after n of its deletions the backend is powered off
+                let n: u64 = n.parse().map_err(|_| "crash n")?;
+                let before = cold_view(fl, &su.backend, &keys).await;
+                let h = su.handle.clone().ok_or("no fault handle")?;
+                h.crash_after_mutations(n);
+                let r = su.typed.collect_garbage().await;
+                let done = h.mutation_count();
+                h.reset();
+                su.reopen();
+                let after = cold_view(fl, &su.backend, &keys).await;
+                out.hits.push(format!("crash:gc:{}", if r.is_ok() { "complete" } else { "cut" }));
+                if r.is_err() {
+                    out.nontrivial = true;
+                }
+                let _ = done;
+                if before != after {
+                    out.failures.push(Failure { key: "gc-crash-changed-a-read".into(), what: format!("a cold read differs before and after a collect_garbage that died after {n} deletions"), expected: format!("{before:?}"), observed: format!("{after:?}"), at: i });
+                }
+                "crashed".to_string()
+            }
             ["crash", n, inner @ ..] => {
                 let n: u64 = n.parse().map_err(|_| "crash n")?;
                 let inner_op = inner.join(" ");
@@ -385,6 +406,8 @@ fn gen_base(rng: &mut Rng) -> (Vec<String>, String, Vec<&'static str>) {
                 ntok += 1;
                 format!("get {}", rng.pick(&keys))
             }
+            37..=40 => format!("{} {} {} {}", if rng.chance(1, 2) { "mabort" } else { "mdrop" }, rng.pick(&keys), (0..1 + rng.usize(2)).map(|_| rng.below(20).to_string()).collect::<Vec<_>>().join(","), rng.below(50)),
+            41..=44 => format!("crash {} gc", rng.below(3)),
             _ => gen_mutation(rng, &keys, c, &mut ntok),
         };
         ops.push(op);
@@ -393,10 +416,16 @@ fn gen_base(rng: &mut Rng) -> (Vec<String>, String, Vec<&'static str>) {
     (ops, target, keys)
 }
 
-fn observations(keys: &[&str]) -> Vec<String> {
+fn observations(keys: &[&str], gc_cut: Option<u64>) -> Vec<String> {
     let mut v = vec!["dump".to_string()];
     v.extend(keys.iter().map(|k| format!("get {k}")));
     v.push("list -".into());
+    if let Some(n) = gc_cut {
+        // the first collection after the crash dies itself, after n deletions; the next one completes
+        v.push(format!("crash {n} gc"));
+        v.push("dump".into());
+        v.extend(keys.iter().map(|k| format!("get {k}")));
+    }
     v.push("gc".into());
     v.push("dump".into());
     v.extend(keys.iter().map(|k| format!("get {k}")));
@@ -494,17 +523,19 @@ fn main() {
             for n in 0..=6u64 {
                 let mut ops = base.clone();
                 ops.push(format!("crash {n} {target}"));
-                ops.extend(observations(&keys));
+                // every third base: the collection that cleans up after the crash is cut as well
+                ops.extend(observations(&keys, if i % 3 == 0 { Some((i / 3 + n) % 3) } else { None }));
                 cases.push((format!("gen{i}.{n}"), ops));
             }
         }
     }
     let ncorpus = cases.iter().filter(|c| !c.0.starts_with("gen")).count();
     let nthreads = std::thread::available_parallelism().map(|n| n.get()).unwrap_or(4).min(16).min(cases.len().max(1));
+    let mut model_cov: BTreeMap<String, u64> = BTreeMap::new();
     let results: Vec<CaseResult> = {
         let mut slots: Vec<Option<CaseResult>> = (0..cases.len()).map(|_| None).collect();
         let chunks: Vec<Vec<usize>> = (0..nthreads).map(|t| (t..cases.len()).step_by(nthreads).collect()).collect();
-        let outs: Vec<Vec<(usize, CaseResult)>> = std::thread::scope(|s| {
+        let outs: Vec<(Vec<(usize, CaseResult)>, Option<String>)> = std::thread::scope(|s| {
             let hs: Vec<_> = chunks
                 .iter()
                 .map(|idxs| {
@@ -513,15 +544,25 @@ fn main() {
                     s.spawn(move || {
                         let rt = tokio::runtime::Builder::new_current_thread().enable_all().build().unwrap();
                         let mut model = if search { None } else { ModelProc::from_args(args) };
-                        idxs.iter().map(|&i| (i, eval(&rt, &cases[i].1, &mut model))).collect::<Vec<_>>()
+                        let v = idxs.iter().map(|&i| (i, eval(&rt, &cases[i].1, &mut model))).collect::<Vec<_>>();
+                        // which branches of the model this worker's share of the run visited
+                        let cov = model.as_mut().map(|m| m.ask("coverage"));
+                        (v, cov)
                     })
                 })
                 .collect();
             hs.into_iter().map(|h| h.join().expect("worker")).collect()
         });
-        for v in outs {
+        for (v, cov) in outs {
             for (i, r) in v {
                 slots[i] = Some(r);
+            }
+            if let Some(c) = cov.as_deref().and_then(|c| c.strip_prefix("cov ")) {
+                for kv in c.split(' ') {
+                    if let Some((k, n)) = kv.rsplit_once('=') {
+                        *model_cov.entry(k.to_string()).or_insert(0u64) += n.parse::<u64>().unwrap_or(0);
+                    }
+                }
             }
         }
         slots.into_iter().map(|s| s.unwrap()).collect()
@@ -650,11 +691,21 @@ fn main() {
                 if !thorough && *fl != "reset m" && si == 0 {
                     tss.truncate(2);
                 }
+                // three tasks: the collector and two writers (same key, or source / target of each other)
                 if thorough {
                     tss.push(vec![Gc, Put("0".into(), 4, 7), Put("0".into(), 2, 3)]);
                     tss.push(vec![Gc, Put("0".into(), 4, 7), Copy("1".into(), "2".into())]);
                     tss.push(vec![Gc, Put("0".into(), 4, 7), Del("0".into())]);
                     tss.push(vec![Gc, Put("2".into(), 4, 7)]);
+                    tss.push(vec![Gc, Put("0".into(), 4, 7), Copy("1".into(), "0".into())]);
+                    tss.push(vec![Gc, Put("1".into(), 4, 7), Ren("1".into(), "0".into())]);
+                    tss.push(vec![Gc, Copy("1".into(), "0".into()), Ren("0".into(), "2".into())]);
+                    tss.push(vec![Gc, Mput("0".into(), vec![3, 2], 7), Del("0".into())]);
+                } else if *fl == "reset m" && si == 0 {
+                    tss.push(vec![Gc, Put("0".into(), 4, 7), Copy("1".into(), "0".into())]);
+                    tss.push(vec![Gc, Put("0".into(), 4, 7), Ren("1".into(), "0".into())]);
+                } else if si == 0 {
+                    tss.push(vec![Gc, Copy("1".into(), "0".into()), Del("0".into())]);
                 }
                 for ts in tss {
                     scenarios.push((setup.clone(), ts));
@@ -775,5 +826,28 @@ fn main() {
         rep.measured.insert("gc_race".into(), json!({"collections": gcs, "successful_writer_calls": writes, "what": "collect_garbage x4 per round racing 3 writer tasks (put / copy / multipart) on a 4-thread runtime; after each round every committed key read cold in full. Real scheduling, not enumerated: measured, not proved."}));
     }
     rep.notes.push(format!("{ncorpus} corpus case(s) run first; {} worker threads", nthreads));
+    // branch coverage of the model under the correspondence run (counters kept by the Lean driver)
+    if !model_cov.is_empty() {
+        let own = |k: &str| k.starts_with("crash:") || k.starts_with("gc") || k == "abort" || k == "legacy" || k == "reopen" || k.starts_with("put:") || k.starts_with("mput:") || k.starts_with("del:") || k.starts_with("copy:") || k.starts_with("ren:");
+        let mut unvisited: Vec<String> = vec![];
+        let (mut tags, mut visited) = (0u64, 0u64);
+        for (k, n) in &model_cov {
+            if !own(k) {
+                continue;
+            }
+            tags += 1;
+            rep.hit_n(&format!("model:{k}"), *n);
+            if *n == 0 {
+                unvisited.push(k.clone());
+            } else {
+                visited += 1;
+            }
+        }
+        rep.measured.insert(
+            "model_branch_coverage".into(),
+            json!({"tags": tags, "visited": visited, "unvisited": unvisited,
+                   "what": "branches of the Lean model (op kind x key presence x mode x outcome, the 81 rows of the get-precondition table, range kinds, cache hit/miss/stale, crash cut positions, GC outcomes) counted by the driver while it answered the generated cases; histogram keys `model:<tag>`"}),
+        );
+    }
     rep.write(&args);
 }
